@@ -48,7 +48,7 @@ def cases(tier: str) -> list[dict[str, Any]]:
                 # its usage errors (observed: exit 1, nothing written); left unspecified, no obligation
                 continue
             for ls in ([None] + LS if th else [None, "tight"]):
-                for w in (WIDTHS if th else [None, "40"]):
+                for w in (WIDTHS if th else [None, "40", "0"]):
                     cs.append(dict(key=f"cli/{inp}/{outp}/ls={ls}/w={w}", kind="cli", inp=inp, outp=outp, ls=ls, w=w))
     cs.append(dict(key="cli/noinput", kind="cli", inp="none", outp="stdout", ls=None, w=None))
     cs.append(dict(key="twin/api", kind="api", entry="file_stdout", twin=True))
